@@ -948,6 +948,9 @@ def _get_attribute(obj: Any, attr: str) -> Any:
     """
     if is_private_attribute(attr):
         raise AttributeError("attempt to access private attribute '%s'" % attr)
+    elif inspect.isdatadescriptor(getattr(type(obj), attr, None)):
+        # a property is never a remotely callable method; don't evaluate it (that would run its getter)
+        raise AttributeError("attempt to access property '%s' as a method" % attr)
     else:
         obj = getattr(obj, attr)
     if getattr(obj, "_pyroExposed", False):
